@@ -190,7 +190,11 @@ def gen_cases(tier, rng):
         npush = rng.choice([0, 0, 0, 1, 2])
         static = rng.random() < 0.08
         cfg = ",".join(x for x in ["static=1" if static else "", "push=%d" % npush if npush else ""] if x) or "-"
-        ops = rand_history(rng, rng.choice([8, 14, 20, 30]), rng.choice([[1], [1, 2], [1, 2, 3]]), npush, static)
+        # static relay pull: ONE stream only - every stream dials the same static origin, and when one op (a tick) starts the
+        # static pulls of two streams the order in which their connections reach the stub's listener is the scheduler's; the
+        # harness cannot tell them apart while they are held, so it would give an attempt the other stream's connection
+        streams = [1] if static else rng.choice([[1], [1, 2], [1, 2, 3]])
+        ops = rand_history(rng, rng.choice([8, 14, 20, 30]), streams, npush, static)
         yield Case(line(ops, cfg), cls="random-%d" % len(set(o.split(".")[1] for o in ops if o.split(".")[0] in ("rp", "ap", "cp", "pp", "fs", "rs", "ts", "ds"))))
 
 
